@@ -124,6 +124,9 @@ func (in *Interp) builtin(fr *Frame, name string, c *ssa.CallCommon, args []Valu
 		switch a := args[0].(type) {
 		case *MapV:
 			if a.m != nil {
+				if a.m.sess != nil {
+					a.m.sess.touchMap(a.m)
+				}
 				a.m.entries = nil
 			}
 			return nil
